@@ -669,7 +669,7 @@ func a2Reader(p *Prog, o *obls, c *PktClosure, key string) {
 					if !errCovers(p, errV, fe, b, map[ssa.Value]bool{}) {
 						problems = append(problems, fmt.Sprintf("error swallowed: the return at %s does not carry the wrapped reader's error", rpos))
 					}
-					if p.nilnessAt(fe, b) == 0 && (n0 == nil || p.origin(nV) != ssa.Value(n0)) {
+					if p.nilnessAt(fe, b) == 0 && !p.nonNilError(errV, b) && (n0 == nil || p.origin(nV) != ssa.Value(n0)) {
 						problems = append(problems, fmt.Sprintf("length changed: the return at %s (read error not tested) reports %s instead of the read's length", rpos, valueString(nV)))
 					}
 				}
